@@ -1,4 +1,5 @@
 BINARIES = {
+    'c15shim': {'pkg': './cmd/c15', 'overlay': 'shim', 'flags': ['-gcflags=all=-l']},
     'c15arm': {'pkg': './cmd/c15arm', 'overlay': 'plain', 'flags': ['-gcflags=all=-l'], 'pregen': ['sh', 'c15arm/gen.sh']},
 }
 
@@ -20,6 +21,7 @@ SPEC = {
             'the arm64 sequences use and whether the far return form is ever needed inside one text segment are recorded, not judged',
     'jobs': [{'bin': 'c15', 'shards': 8, 'sub': 'amd64'},
              {'bin': 'c15', 'shards': 4, 'sub': 'guards'},
+             {'bin': 'c15shim', 'shards': 2, 'sub': 'stubs'},
              {'bin': 'c15arm', 'shards': 8, 'sub': 'arm64'}],
     'rule': 'guards (engine H): every maximal history of New/Apply/Unpatch/Restore over 2 targets up to depth 8 (thorough: 2 targets depth 12, 3 targets depth 11), model-side well-formedness filter, replayed from a pristine image, every target judged after every step (installed bytes through the reference decoder and interpreter, pristine bytes otherwise, and a real call); non-trivial = a sequence is written while another guard exists. engine E. (a) destinations: per byte lane all 256 values x 8 lanes x B backgrounds; all pairs of 16-bit lanes at '
             '{0,1,0x7fff,0x8000,0xffff} x B backgrounds; per 16-bit lane all 65536 values x 4 lanes x B backgrounds '
